@@ -21,6 +21,7 @@ type PrintCase struct {
 	CostW    []int   `json:"costw,omitempty"`
 	NilW     bool    `json:"nilw,omitempty"`
 	Solve    bool    `json:"solve,omitempty"` // kind solver: solve before printing (learned clauses, top-level facts)
+	Twin     [][]int `json:"twin,omitempty"`  // kind solver: two solvers are made from the same Problem; clause i is appended to solver i; the first one is printed
 }
 
 func genPrintCase(r *Rng, tier string) PrintCase {
@@ -56,6 +57,15 @@ func genPrintCase(r *Rng, tier string) PrintCase {
 		if r.Chance(1, 3) {
 			c.Kind = "solver"
 			c.Solve = r.Bool()
+			if n > 1 && r.Chance(1, 3) {
+				// two solvers made from one problem value, each given a clause of its own. A Problem
+				// value really supports one solver only (New shares its Model slice and its clauses
+				// with the solver: DESIGN.md section 9, observations), so the scenario stays where the
+				// sharing cannot interfere: no solving, clauses of two or more literals (checked
+				// at run time to be over unbound variables)
+				c.Solve = false
+				c.Twin = [][]int{randClauseDistinct(r, n, r.Range(2, min2(n, 3))), randClauseDistinct(r, n, r.Range(2, min2(n, 3)))}
+			}
 		}
 		return c
 	}
@@ -64,7 +74,7 @@ func genPrintCase(r *Rng, tier string) PrintCase {
 func init() {
 	register(&Prop{
 		ID: "C18",
-		Rule: "problems built by ParseSliceNb (messy / uniform CNF over 1..8 variables with unused declared ones), ParseCardConstrs / ParsePBConstrs (constraint sets as for C02, optional cost function with weights nil / 0..40), a Solver made from such a problem (before or after a Solve), and explain.ParseCNF; printed with Problem.CNF, Problem.PBString, Solver.PBString, explain.Problem.CNF and re-parsed with ParseCNF / ParseOPB / explain.ParseCNF. Model sets and per-model costs of original and re-parsed problem are compared through the verified GS.modelsOver / GS.cost. Non-trivial = the printed problem keeps at least one constraint or unit; distinct = distinct problem.",
+		Rule: "problems built by ParseSliceNb (messy / uniform CNF over 1..8 variables with unused declared ones), ParseCardConstrs / ParsePBConstrs (constraint sets as for C02, optional cost function with weights nil / 0..40), a Solver made from such a problem (before or after a Solve; sometimes one of two solvers made from the same Problem value, each given a clause of its own with AppendClause), and explain.ParseCNF; printed with Problem.CNF, Problem.PBString, Solver.PBString, explain.Problem.CNF and re-parsed with ParseCNF / ParseOPB / explain.ParseCNF. Model sets and per-model costs of original and re-parsed problem are compared through the verified GS.modelsOver / GS.cost. Non-trivial = the printed problem keeps at least one constraint or unit; distinct = distinct problem.",
 		Gens:    []Gen{{Name: "print", Weight: 1, Make: func(r *Rng, tier string) interface{} { return genPrintCase(r, tier) }}},
 		Run:     runPrintCase,
 		Cases:   defCases(4000, 100000),
@@ -168,6 +178,38 @@ func runPrintCase(o *Oracle, d json.RawMessage, oc *Outcome) {
 			entry = "solver.Problem.PBString"
 		} else {
 			s := solver.New(pb)
+			twinOK := len(c.Twin) == 2
+			if twinOK {
+				bound := map[int]bool{}
+				for _, u := range pb.Units {
+					bound[absInt(int(u.Int()))] = true
+				}
+				for _, cl := range c.Twin {
+					for _, l := range cl {
+						if bound[absInt(l)] || absInt(l) > pb.NbVars {
+							twinOK = false
+						}
+					}
+				}
+			}
+			if twinOK {
+				oc.Tag("two-solvers-one-problem")
+				s2 := solver.New(pb)
+				mk := func(cl []int) *solver.Clause {
+					ls := make([]solver.Lit, len(cl))
+					for i, l := range cl {
+						ls[i] = solver.IntToLit(int32(l))
+					}
+					return solver.NewClause(ls)
+				}
+				s.AppendClause(mk(c.Twin[0]))
+				s2.AppendClause(mk(c.Twin[1])) // must not show in the first solver's text
+				sem = append(sem, clauseLin(c.Twin[0]))
+				if !o.Sat(n, sem) {
+					oc.Tag("refuted-by-the-appended-clause")
+					return // a refuted solver has no OPB rendering of its own: outside the property
+				}
+			}
 			if c.Solve {
 				s.Solve()
 				oc.Tag("printed-after-solve")
